@@ -3,6 +3,7 @@ package harness
 import (
 	"context"
 	"fmt"
+	"sync/atomic"
 	"testing"
 	"testing/synctest"
 	"time"
@@ -51,7 +52,13 @@ type WSUT struct {
 	Callers []*wCaller
 	Now0    int64
 	Absdl   int64
+	inAcq   int64 // callers whose Acquire has not returned yet
+	Stale   int64 // largest number of backlog entries seen, at the return of an Acquire, beyond the callers still inside Acquire
+	finish  int32
 }
+
+// ZeroDeadline: configuration marker for a deadline limiter built with the zero time.Time (a deadline long past)
+const ZeroDeadline = -(int64(1) << 62)
 
 // NewWSUT must be called inside a synctest bubble.
 func NewWSUT(c WCfg) (*WSUT, error) {
@@ -84,7 +91,11 @@ func NewWSUT(c WCfg) (*WSUT, error) {
 	case "blocking":
 		w.Lim = limiter.NewBlockingLimiter(d, to, nil)
 	case "deadline":
-		w.Lim = limiter.NewDeadlineLimiter(d, time.Unix(0, w.Absdl), nil)
+		if c.Deadline == ZeroDeadline {
+			w.Lim = limiter.NewDeadlineLimiter(d, time.Time{}, nil)
+		} else {
+			w.Lim = limiter.NewDeadlineLimiter(d, time.Unix(0, w.Absdl), nil)
+		}
 	case "config":
 		q := limiter.NewQueueBlockingLimiterFromConfig(d, limiter.QueueLimiterConfig{Ordering: ord, MaxBacklogSize: rawB, MaxBacklogTimeout: to, BacklogEvictDoneCtx: c.Evict, MetricRegistry: w.Reg})
 		w.Lim, w.Queue = q, q
@@ -179,8 +190,21 @@ func (w *WSUT) Arrive(cancelled bool) int {
 	}
 	c := &wCaller{ctx: ctx, cancel: cancel, arrival: time.Now().UnixNano(), t: time.Now().UnixNano(), ret: make(chan struct{})}
 	w.Callers = append(w.Callers, c)
+	atomic.AddInt64(&w.inAcq, 1)
 	go func() {
 		ls, ok := w.Lim.Acquire(ctx)
+		inside := atomic.AddInt64(&w.inAcq, -1)
+		if w.Queue != nil && atomic.LoadInt32(&w.finish) == 0 {
+			// every backlog entry belongs to a caller still inside Acquire: a caller's own entry is gone when its Acquire returns
+			if extra := int64(w.Queue.VerifBacklogLen()) - inside; extra > 0 {
+				for {
+					m := atomic.LoadInt64(&w.Stale)
+					if extra <= m || atomic.CompareAndSwapInt64(&w.Stale, m, extra) {
+						break
+					}
+				}
+			}
+		}
 		c.t = time.Now().UnixNano()
 		if ok != (ls != nil) {
 			c.status = -9 // a listener must be returned iff ok
@@ -220,6 +244,7 @@ func (w *WSUT) SetLimit(n int64) {
 
 // Finish lets every goroutine of the scenario end so that the bubble can be left.
 func (w *WSUT) Finish() {
+	atomic.StoreInt32(&w.finish, 1)
 	for _, c := range w.Callers {
 		c.cancel()
 	}
